@@ -1050,6 +1050,34 @@ def _bind_call(fi, call):
     return b
 
 
+def join_alternatives(text):
+    """The alternatives of a value joined over the arms of an undecided `if` (JOIN(a | b), nested), else [text]."""
+    if not (text.startswith('JOIN(') and text.endswith(')')):
+        return [text]
+    inner, d, parts, cur = text[5:-1], 0, [], ''
+    i = 0
+    while i < len(inner):
+        ch = inner[i]
+        if ch in '([{':
+            d += 1
+        elif ch in ')]}':
+            d -= 1
+            if d < 0:
+                return [text]          # the closing bracket of JOIN( is not the last character's partner
+        if d == 0 and inner.startswith(' | ', i):
+            parts.append(cur)
+            cur = ''
+            i += 3
+            continue
+        cur += ch
+        i += 1
+    parts.append(cur)
+    out = []
+    for p_ in parts:
+        out.extend(join_alternatives(p_))
+    return out
+
+
 def hex_decoded(text):
     """X if `text` denotes the octets whose hexadecimal spelling is the str X (the idioms are equivalent on hex digits), else None."""
     m = re.match(r'^(?:binascii\.)?(?:unhexlify|a2b_hex)\((.+)\)$', text or '')
@@ -1132,13 +1160,21 @@ def check_ids_rooted_at_self(rep, prog, rid):
     # ---- _sign: issuer fingerprint and key material
     f = prog.method(K, 'PGPKey', '_sign')
     rep.saw(fn=f)
-    fpr, signs, sinks = {}, {}, {}
+    fpr, signs, sinks, rcpts = {}, {}, {}, {}
     returning = 0
     for s in Interp(prog, Scenario(inline=noinline, join_unknown=True)).run(f):
         returning += 0 if s.raised else 1
         for c in s.calls:
             last = c[0].split('.')[-1]
             if last == 'addnew':
+                if (c[1][0] if c[1] else c[2].get(a_params[0])) == "'IntendedRecipient'":
+                    b = _bind_call(addnew, c)
+                    val = b.get('intended_recipient')
+                    # the element of the caller's intended_recipients the value is rooted at (a bound variable of the path)
+                    # (an if / elif that picks `<r>.fingerprint` or `<r>` before one shared call joins the two values)
+                    ms = [re.match(r'^(\$[\d.]+(?:_\d+)*)(\.fingerprint)?$', a) for a in join_alternatives(val or '')]
+                    var = ms[0].group(1) if ms and all(ms) and len(set(m.group(1) for m in ms)) == 1 else None
+                    rcpts.setdefault((c[3], val), (var, s.bound.get(var) if var else None))
                 if (c[1][0] if c[1] else c[2].get(a_params[0])) == "'IssuerFingerprint'":
                     b = _bind_call(addnew, c)
                     fpr.setdefault((c[3], b.get('_issuer_fpr'), b.get('_version'), b.get(a_params[1]) if len(a_params) > 1 else None), c)
@@ -1154,6 +1190,17 @@ def check_ids_rooted_at_self(rep, prog, rid):
                   'IssuerFingerprint(_issuer_fpr=%s, _version=%s, hashed=%s)' % (val, ver, hashed),
                   'the issuer fingerprint written must be the fingerprint of the key that signs (self)',
                   where='%s:%d' % (f.module.relpath, line), expected='_issuer_fpr=%s' % FPR, found={'_issuer_fpr': val, '_version': ver, 'hashed': hashed})
+    # intended recipients named in the signature are the keys the caller named: <element>.fingerprint (or the element, if it is
+    # a Fingerprint already) of the `intended_recipients` option itself - not a key derived from it
+    opts = f.node.args.kwarg.arg if f.node.args.kwarg is not None else None
+    rep.check(len(rcpts) >= 1, rid, 'PGPKey._sign', 'IntendedRecipient sites %d' % len(rcpts), 'expected the intended-recipient subpackets', where=f.where)
+    for (line, val), (var, coll) in sorted(rcpts.items(), key=lambda kv: kv[0][0]):
+        from_option = var is not None and coll is not None and opts is not None and \
+            re.match(r"^(?:(?:list|tuple|iter)\()*%s(\.pop\(|\.get\(|\[)'intended_recipients'" % re.escape(opts), coll) is not None
+        rep.check(from_option, rid, 'PGPKey._sign', 'IntendedRecipient(intended_recipient=%s) over %s' % (val, coll),
+                  'the fingerprint written into an Intended Recipient subpacket must be that of the key the caller named (the element of '
+                  'intended_recipients itself), not of a key derived from it', where='%s:%d' % (f.module.relpath, line),
+                  expected='<r>.fingerprint for r in intended_recipients', found=val)
     recv = sorted(set(k[1] for k in signs))
     rep.check(recv == [MAT + '.sign'], rid, 'PGPKey._sign', 'signing call %s' % recv,
               'the signature must be made with the key material of self', where=f.where, expected=MAT + '.sign', found=recv)
